@@ -68,6 +68,13 @@ func checkC18(c *Ctx) {
 	c.Rule("C18-R20", "the cursor query reflects ShowCursor: every call recomputes the visibility (SetSize resets the stored position without it)")
 	c.Expect("C18-R20", 1)
 	checkShowCursorAlwaysRecomputes(c, p, "C18-R20")
+	c.Rule("C18-R21", "the cursor is reported visible exactly when it lies on the screen: in the simulation's methods a column is compared with the width only and a row with the height only (axes seeded from the parameters of ShowCursor and SetSize and carried through the fields)")
+	c.Expect("C18-R21", 1)
+	checkAxisPairing(c, p, "C18-R21", "simscreen:comparisons-within-one-axis", "tcell.simscreen", map[string][2][]int{
+		"ShowCursor": {{0}, {1}},
+		"SetSize":    {{0}, {1}},
+		"drawCell":   {{0}, {1}},
+	}, 2)
 	c.Rule("C18-R8", "the simulation's ShowCursor remembers the requested position as given")
 	c.Expect("C18-R8", 1)
 	checkShowCursorStoresRequest(c, p, "C18-R8", "simscreen")
